@@ -187,6 +187,23 @@ class Facts:
         return True
 
 
+def _is_broadcast_index(sl: ast.AST) -> bool:
+    """Index made only of full slices and newaxis/None (at least one newaxis): a broadcasting view."""
+    elts = sl.elts if isinstance(sl, ast.Tuple) else [sl]
+    new = 0
+    for e in elts:
+        if isinstance(e, ast.Slice) and e.lower is None and e.upper is None and e.step is None:
+            continue
+        if isinstance(e, ast.Constant) and e.value is None:
+            new += 1
+            continue
+        if isinstance(e, ast.Attribute) and e.attr == "newaxis":
+            new += 1
+            continue
+        return False
+    return new > 0
+
+
 AssumeFn = Callable[[ast.AST], Optional[bool]]
 
 
@@ -217,6 +234,8 @@ class Evaluator:
             if e.value is None:
                 return Poly.sym("None")
             raise Undecided(f"non-numeric constant {e.value!r}")
+        if isinstance(e, ast.Subscript) and _is_broadcast_index(e.slice):
+            return self.ev(e.value)  # x[:, np.newaxis] / x[None, :] : the same values, reshaped for broadcasting
         if isinstance(e, (ast.Name, ast.Attribute, ast.Subscript)):
             ln = loc_name(e)
             if ln is not None:
@@ -227,6 +246,17 @@ class Evaluator:
                 return Poly.sym(f"[{src(e)}]")
             raise Undecided(f"cannot name {src(e)}")
         if isinstance(e, ast.UnaryOp):
+            if isinstance(e.op, ast.USub) and isinstance(e.operand, ast.BinOp) and isinstance(e.operand.op, ast.FloorDiv):
+                # -(x // b) == ceil(-x / b): the integer ceiling-division idiom
+                num = ast.UnaryOp(op=ast.USub(), operand=e.operand.left)
+                call = ast.Call(func=ast.Attribute(value=ast.Name(id="math", ctx=ast.Load()), attr="ceil", ctx=ast.Load()),
+                                args=[ast.BinOp(left=num, op=ast.Div(), right=e.operand.right)], keywords=[])
+                saved = self.resolve
+                self.resolve = lambda f: "math.ceil" if isinstance(f, ast.Attribute) and f.attr == "ceil" and isinstance(f.value, ast.Name) and f.value.id == "math" else saved(f)
+                try:
+                    return self.ev(call)
+                finally:
+                    self.resolve = saved
             if isinstance(e.op, ast.USub):
                 return -self.ev(e.operand)
             if isinstance(e.op, ast.UAdd):
@@ -242,7 +272,15 @@ class Evaluator:
                 return a * b
             if isinstance(e.op, ast.Div):
                 q = a.div(b)
-                return q if q is not None else self.atom("div", a, b)
+                if q is not None:
+                    return q
+                # (a + k*b) / b == a / b + k : pick a canonical representative of the numerator modulo the denominator
+                best, bk = a, 0
+                for k in range(-4, 5):
+                    c = a - Poly.const(k) * b
+                    if (len(c.t), c.canon()) < (len(best.t), best.canon()):
+                        best, bk = c, k
+                return self.atom("div", best, b) + Poly.const(bk)
             if isinstance(e.op, ast.FloorDiv):
                 q = a.div(b)
                 if q is not None and self.facts.is_integer(q):
@@ -306,7 +344,8 @@ class Evaluator:
         if isinstance(e, ast.Call):
             fn = self.resolve(e.func) or src(e.func)
             args = e.args
-            if fn in ("numpy.array", "numpy.asarray", "numpy.copy", "numpy.real", "numpy.squeeze") and args:
+            if fn in ("numpy.array", "numpy.asarray", "numpy.copy", "numpy.real", "numpy.squeeze", "numpy.atleast_1d", "numpy.atleast_2d", "numpy.asanyarray",
+                      "numpy.ascontiguousarray") and args:
                 return self.ev(args[0])
             if fn in ("numpy.ones", "numpy.ones_like"):
                 return Poly.const(1)
@@ -330,8 +369,15 @@ class Evaluator:
                     return Poly.const(round(cv))
                 if self.facts.is_integer(x):
                     return x
-                # integer-valued part + rational constant: round the constant alone
+                # x + integer constant: ceil/floor/int commute with adding an integer
                 cpart = x.t.get((), Fraction(0))
+                if cpart != 0 and cpart.denominator == 1 and fn not in ("numpy.round", "numpy.rint", "numpy.around", "round") and not (Poly({m: c for m, c in x.t.items() if m != ()})).is_zero() \
+                        and not self.facts.is_integer(Poly({m: c for m, c in x.t.items() if m != ()})) and fn not in self.FLOATERS:
+                    rest = Poly({m: c for m, c in x.t.items() if m != ()})
+                    a0 = self.atom(fn.split(".")[-1], rest)
+                    self.facts.int_syms |= a0.symbols()
+                    return a0 + Poly.const(cpart)
+                # integer-valued part + rational constant: round the constant alone
                 ipart = Poly({m: c for m, c in x.t.items() if m != ()})
                 if not ipart.is_zero() and self.facts.is_integer(ipart) and fn not in ("numpy.round", "numpy.rint", "numpy.around", "round"):
                     import math
@@ -353,6 +399,12 @@ class Evaluator:
                     return Poly.const(min(ca, cb) if nm == "min" else max(ca, cb))
                 if a == b:
                     return a
+                # max(x, c) == max(x - c, 0) + c for a constant c: one canonical form whatever constant the source factors out
+                for u, v in ((a, b), (b, a)):
+                    cv = v.const_value()
+                    if cv is not None and cv != 0 and u.const_value() is None:
+                        inner = self.ev_minmax(nm, u - v, Poly.const(0))
+                        return inner + v
                 x, y = sorted([a, b], key=lambda p: p.canon())
                 r = self.atom(nm, x, y)
                 if self.facts.is_integer(x) and self.facts.is_integer(y):
@@ -371,6 +423,13 @@ class Evaluator:
                 return Poly.const(int(d))
             return Poly.sym(f"cond:{src(e)}")
         raise Undecided(f"cannot evaluate {src(e)}")
+
+    def ev_minmax(self, nm: str, a: Poly, b: Poly) -> Poly:
+        x, y = sorted([a, b], key=lambda p: p.canon())
+        r = self.atom(nm, x, y)
+        if self.facts.is_integer(x) and self.facts.is_integer(y):
+            self.facts.int_syms |= r.symbols()
+        return r
 
     # ---- tests
     def decide(self, test: ast.AST) -> Optional[bool]:
@@ -535,13 +594,27 @@ class SymExec:
             else:
                 if self.on_undecided == "error":
                     raise Undecided(f"branch not decided: {src(s.test)}")
-                # havoc everything either branch assigns
-                for sub in s.body + s.orelse:
-                    for n in ast.walk(sub):
-                        if isinstance(n, (ast.Assign, ast.AugAssign, ast.AnnAssign)):
-                            for t in (n.targets if isinstance(n, ast.Assign) else [n.target]):
-                                for el in (t.elts if isinstance(t, (ast.Tuple, ast.List)) else [t]):
-                                    self._store(el, None)
+                # run both outcomes on copies of the environment and keep what they agree on (join); the rest becomes unknown
+                base_env = dict(self.ev.env)
+                outcomes = []
+                for branch in (s.body, s.orelse):
+                    self.ev.env = dict(base_env)
+                    saved = (self.stopped, list(self.returns), list(self.yields))
+                    try:
+                        self.run(branch)
+                    except Undecided:
+                        pass
+                    outcomes.append(dict(self.ev.env))
+                    self.stopped, self.returns, self.yields = saved[0], saved[1], saved[2]
+                a, b = outcomes
+                merged = {}
+                for k in set(a) | set(b):
+                    if k in a and k in b and a[k] == b[k]:
+                        merged[k] = a[k]
+                    else:
+                        self.fresh += 1
+                        merged[k] = Poly.sym(f"?{k}#{self.fresh}")
+                self.ev.env = merged
         elif isinstance(s, ast.Assert):
             self.harvest_assert(s.test)
         elif isinstance(s, ast.Return):
